@@ -960,7 +960,13 @@ class FortranReaderBase:
                 # ;-separator not recognized in pyf-mode
                 items = []
                 # Deal with each Fortran statement separately.
-                split_line_iter = iter(item.get_line().split(";"))
+                # The split is done on the line with its character
+                # strings and parenthesised groups replaced (a ';' in
+                # them does not separate statements) but without
+                # folding the case, so that each statement keeps its
+                # spelling just as it does on a line of its own.
+                mapped_line, str_map = string_replace_map(item.line, lower=False)
+                split_line_iter = iter(mapped_line.split(";"))
                 first = next(split_line_iter)
                 # The full line has already been processed as a Line
                 # object in 'item' (and may therefore have label
@@ -972,7 +978,7 @@ class FortranReaderBase:
                 # statement (rather than the full line). Subsequent
                 # statements need to be processed into Line
                 # objects.
-                items.append(item.copy(first.strip(), apply_map=True))
+                items.append(item.copy(str_map(first.strip())))
                 for line in split_line_iter:
                     # Any subsequent statements have not been processed
                     # before, so new Line objects need to be created.
@@ -986,7 +992,7 @@ class FortranReaderBase:
                         # using the existing span (line numbers) and
                         # reader.
                         new_line = Line(
-                            item.apply_map(line), item.span, label, name, item.reader
+                            str_map(line), item.span, label, name, item.reader
                         )
                         items.append(new_line)
                 items.reverse()
